@@ -163,7 +163,7 @@ func cmdCheck(args []string) int {
 		// not turn into an alarm): one more race with a longer timeout and another seed
 		{
 			var rwg sync.WaitGroup
-			sem := make(chan struct{}, 3)
+			sem := make(chan struct{}, 8)
 			for _, r := range results {
 				for _, o := range r.VC.obls {
 					if !o.ok() && !o.ExpectSat && o.Status != "sat" && claimed[baseName(o.Name)] {
